@@ -68,6 +68,17 @@ fn main() {
                 std::process::exit(2);
             }
         }
+        "run" => {
+            let lang = sev::script::lang_by_name(&args[2]).expect("language");
+            sev::script::run(lang, &args[3]);
+        }
+        "mkhist" => {
+            // sev mkhist <property> <stage> <lang> "<script>"  -> replay/corpus JSON on stdout
+            let lang = sev::script::lang_by_name(&args[4]).expect("language");
+            let h = sev::hist::Hist::from_script(lang, &args[5]).expect("script");
+            let v = serde_json::json!({"property": args[2], "stage": args[3], "config": "any", "message": "", "rendered": h.render(), "case": h});
+            println!("{}", serde_json::to_string_pretty(&v).unwrap());
+        }
         "list" => {
             for p in sev::props::ALL {
                 println!("{p}");
